@@ -411,8 +411,26 @@ def _ceil(x, *a, **k):
     return elementwise(lambda v: -sfloor(-v), x)
 
 
+def _sroot(v):
+    """sqrt as a distance-by-its-square (keeps the solver side polynomial)."""
+    if isinstance(v, core.SRoot):
+        return core.SRoot(v.val())
+    if isinstance(v, Sym):
+        return core.SRoot(v)
+    f = rat(v)
+    import math
+    n, d = math.isqrt(f.numerator) if f >= 0 else 0, math.isqrt(f.denominator)
+    if f >= 0 and n * n == f.numerator and d * d == f.denominator:
+        return Fraction(n, d)
+    if f < 0:
+        raise Inconclusive('sqrt of a negative number')
+    return core.SRoot(f)
+
+
 def _sqrt(x, *a, **k):
-    return elementwise(core.ssqrt, x)
+    if isinstance(x, Spectrum):
+        raise Inconclusive('sqrt of a spectrum')
+    return elementwise(_sroot, x)
 
 
 def _sign(x, *a, **k):
@@ -420,6 +438,8 @@ def _sign(x, *a, **k):
 
 
 def _abs(x, *a, out=None, **k):
+    if isinstance(x, Spectrum):
+        return x.abs(out=out)
     r = elementwise(abs, x)
     if out is not None:
         out[...] = r
@@ -428,6 +448,8 @@ def _abs(x, *a, out=None, **k):
 
 
 def _square(x, *a, out=None, **k):
+    if isinstance(x, Spectrum):
+        return x.square(out=out)
     r = elementwise(lambda v: v * v, x)
     if out is not None:
         out[...] = r
@@ -535,7 +557,7 @@ def _std(a, axis=None, dtype=None, out=None, ddof=0, keepdims=False, **k):
 def _norm(x, ord=None, axis=None, keepdims=False):
     if ord not in (None, 2):
         raise Inconclusive('linalg.norm with ord != 2 on symbolic array')
-    return S(x)._reduce(lambda xs: core.ssqrt(ssum([v * v for v in xs])), axis, keepdims)
+    return S(x)._reduce(lambda xs: _sroot(ssum([v * v for v in xs])), axis, keepdims)
 
 
 def _bins_concrete(bins):
@@ -744,6 +766,118 @@ def _isnan(x, *a, **k):
     return elementwise(lambda v: False, x)
 
 
+class Spectrum:
+    """Lazy result of fft/rfft of a real symbolic signal (zero-padded / truncated to n along axis).
+    Only the uses the Wiener-Khinchin theorem covers are given a meaning:
+    ifft(|fft(x, n)|^2) and irfft(|rfft(x, n)|^2, n) = circular autocorrelation of the padded signal."""
+
+    def __init__(self, signal, n, axis, kind, stage='raw'):
+        self.signal, self.n, self.axis, self.kind, self.stage = signal, n, axis, kind, stage
+
+    @property
+    def shape(self):
+        sh = list(self.signal.shape)
+        sh[self.axis] = self.n if self.kind == 'fft' else self.n // 2 + 1
+        return tuple(sh)
+
+    def abs(self, out=None):
+        if self.stage != 'raw':
+            raise Inconclusive('abs of a processed spectrum')
+        r = Spectrum(self.signal, self.n, self.axis, self.kind, 'abs')
+        if out is not None:
+            out.__dict__.update(r.__dict__)
+            return out
+        return r
+
+    def square(self, out=None):
+        if self.stage != 'abs':
+            raise Inconclusive('square of a spectrum that is not |X|')
+        r = Spectrum(self.signal, self.n, self.axis, self.kind, 'power')
+        if out is not None:
+            out.__dict__.update(r.__dict__)
+            return out
+        return r
+
+    def __pow__(self, k):
+        if k == 2:
+            return self.square()
+        raise Inconclusive('power of a spectrum')
+
+    def autocorrelation(self, n_out):
+        """Circular autocorrelation of the padded signal, length n_out along axis (needs n_out == n)."""
+        if self.stage != 'power':
+            raise Inconclusive('inverse transform of something other than a power spectrum')
+        if n_out != self.n:
+            return None
+        x = _np.moveaxis(_np.asarray(S(self.signal)), self.axis, 0)
+        T = x.shape[0]
+        pad = _np.empty((self.n,) + x.shape[1:], dtype=object)
+        pad.fill(0)
+        pad[:min(T, self.n)] = x[:min(T, self.n)]
+        out = _np.empty_like(pad)
+        for k in range(self.n):
+            for idx in _np.ndindex(pad.shape[1:]):
+                out[(k,) + idx] = ssum([pad[(j,) + idx] * pad[((j + k) % self.n,) + idx] for j in range(self.n)])
+        return _np.moveaxis(out, 0, self.axis).view(SymArray)
+
+
+class _FFT:
+    """np.fft stand-in (see Spectrum)."""
+
+    def __init__(self):
+        self.fresh = 0
+
+    def fft(self, a, n=None, axis=-1, **k):
+        if not has_sym(a):
+            return _np.fft.fft(a, n=n, axis=axis, **k)
+        a = S(a)
+        axis = axis % a.ndim
+        return Spectrum(a, a.shape[axis] if n is None else int(n), axis, 'fft')
+
+    def rfft(self, a, n=None, axis=-1, **k):
+        if not has_sym(a):
+            return _np.fft.rfft(a, n=n, axis=axis, **k)
+        a = S(a)
+        axis = axis % a.ndim
+        return Spectrum(a, a.shape[axis] if n is None else int(n), axis, 'rfft')
+
+    def ifft(self, spec, n=None, axis=-1, **k):
+        if not isinstance(spec, Spectrum):
+            return _np.fft.ifft(spec, n=n, axis=axis, **k)
+        if spec.kind != 'fft' or (axis % len(spec.shape)) != spec.axis:
+            raise Inconclusive('ifft of an rfft spectrum / other axis')
+        r = spec.autocorrelation(spec.n if n is None else int(n))
+        if r is None:
+            return self._unconstrained(spec, spec.n if n is None else int(n))
+        return r
+
+    def irfft(self, spec, n=None, axis=-1, **k):
+        if not isinstance(spec, Spectrum):
+            return _np.fft.irfft(spec, n=n, axis=axis, **k)
+        if spec.kind != 'rfft' or (axis % len(spec.shape)) != spec.axis:
+            raise Inconclusive('irfft of an fft spectrum / other axis')
+        m = spec.n // 2 + 1
+        n_out = 2 * (m - 1) if n is None else int(n)
+        r = spec.autocorrelation(n_out)
+        if r is None:
+            return self._unconstrained(spec, n_out)
+        return r
+
+    def _unconstrained(self, spec, n_out):
+        """Inverse transform with a length different from the forward one: no contract -> fresh reals
+        (over-approximation; any model is decided by the concrete replay)."""
+        sh = list(spec.signal.shape)
+        sh[spec.axis] = n_out
+        out = _np.empty(tuple(sh), dtype=object)
+        for idx in _np.ndindex(out.shape):
+            out[idx] = core.fresh_real('ifft_len_mismatch')
+        core.ctx().notes.append(f'inverse FFT length {n_out} != forward length {spec.n}: result unconstrained')
+        return out.view(SymArray)
+
+    def __getattr__(self, name):
+        return getattr(_np.fft, name)
+
+
 class _Linalg:
     def norm(self, x, ord=None, axis=None, keepdims=False):
         if has_sym(x):
@@ -772,6 +906,7 @@ class NPProxy:
 
     def __init__(self, extra=None):
         self.linalg = _Linalg()
+        self.fft = _FFT()
         self.maximum = _UfuncProxy(_np.maximum, _maximum)
         self.minimum = _UfuncProxy(_np.minimum, _minimum)
         self._extra = dict(extra or {})
@@ -789,7 +924,7 @@ class NPProxy:
             ic = _INTERCEPTS[name]
 
             def dispatch(*a, **k):
-                if has_sym(*a) or has_sym(*k.values()):
+                if has_sym(*a) or has_sym(*k.values()) or any(isinstance(v, Spectrum) for v in a):
                     self.calls[name] = self.calls.get(name, 0) + 1
                     return ic(*a, **k)
                 return real(*a, **k)
